@@ -380,7 +380,7 @@ func nativeReplayBatch(pkgRel string, paths []string, files []string, pkgName st
 		i := pending[begun]
 		lbl := labelOf(paths[i])
 		switch {
-		case lbl == "crash" && (strings.Contains(o, "\npanic:") || strings.Contains(o, "fatal error:")):
+		case lbl == "crash" && nativeCrashed(o):
 			results[i] = "reproduced: process crashed natively: " + firstPanicLine(o)
 		case lbl == "deadlock" && (strings.Contains(o, "test timed out") || strings.Contains(o, "all goroutines are asleep")):
 			results[i] = "reproduced: native run deadlocked / timed out"
@@ -417,12 +417,16 @@ func labelOf(path string) string {
 
 func firstPanicLine(o string) string {
 	for _, l := range strings.Split(o, "\n") {
-		if strings.HasPrefix(l, "panic:") || strings.HasPrefix(l, "fatal error:") {
+		if (strings.HasPrefix(l, "panic:") || strings.HasPrefix(l, "fatal error:")) && !strings.Contains(l, "test timed out") {
 			return l
 		}
 	}
 	return ""
 }
+
+// nativeCrashed: the replay process died of a Go panic or runtime fatal error of its own - not of the test deadline
+// (a hang is a deadlock, never the reproduction of a crash).
+func nativeCrashed(o string) bool { return firstPanicLine(o) != "" }
 
 func cmdReplay(args []string) int {
 	if len(args) < 1 {
